@@ -108,3 +108,11 @@ Print Assumptions C08_resolve_immediates_from_source.
 Theorem C08_resolve_labels_from_source : Proofs.Guards.resolve_labels_from_source_stmt.
 Proof. exact Proofs.Guards.resolve_labels_from_source. Qed.
 Print Assumptions C08_resolve_labels_from_source.
+
+(* ---- the position bookkeeping of the SOURCE, path by path (Gen/Book.v, regenerated on every run; Proofs/Book.v): in resolve_labels,
+   both compression passes, the pseudo-instruction pass, resolve_aligns and resolve_immediates every appended item is paired with exactly
+   one `position += <its size>` and nothing else advances the position -- what the pass model's running position assumes *)
+From BB Require Gen.Book Proofs.Book.
+Theorem C08_position_bookkeeping_from_source : Proofs.Book.bookkeeping_ok = true.
+Proof. exact Proofs.Book.bookkeeping_from_source. Qed.
+Print Assumptions C08_position_bookkeeping_from_source.
